@@ -36,7 +36,7 @@ type WField struct {
 	Pad  int      `json:"pad,omitempty"` // extra continuation bytes: a non-minimal varint
 	S    string   `json:"s,omitempty"`   // string / bytes payload
 	Sub  []WField `json:"sub,omitempty"` // submessage
-	Kind string   `json:"kind"`          // varint | bytes | sub | fixed32 | fixed64
+	Kind string   `json:"kind"`          // varint | bytes | sub | fixed32 | fixed64 | rawlen (length varint V, then S)
 }
 
 type WBCase struct {
@@ -70,6 +70,11 @@ func wencode(fs []WField) []byte {
 		case "sub":
 			b = protowire.AppendTag(b, protowire.Number(f.Num), protowire.BytesType)
 			b = protowire.AppendBytes(b, wencode(f.Sub))
+		case "rawlen":
+			// a length-delimited field whose length varint is whatever the peer likes (and no payload to match)
+			b = protowire.AppendTag(b, protowire.Number(f.Num), protowire.BytesType)
+			b = appendVarintPadded(b, uint64(f.V), f.Pad)
+			b = append(b, f.S...)
 		case "fixed32":
 			b = protowire.AppendTag(b, protowire.Number(f.Num), protowire.Fixed32Type)
 			b = protowire.AppendFixed32(b, uint32(f.V))
@@ -108,6 +113,13 @@ func genWPID(t *rapid.T, num int, pool []string) WField {
 	return f
 }
 
+var hostileLens = []int64{1<<63 - 1, 1<<63 - 2, 1 << 62, 1<<31 - 1, 1 << 31, 1 << 32, 1000, 5, -1, -2147483648}
+
+func genRawLen(t *rapid.T, nums []int) WField {
+	return WField{Num: rapid.SampledFrom(nums).Draw(t, "rawnum"), Kind: "rawlen", V: rapid.SampledFrom(hostileLens).Draw(t, "rawlen"),
+		Pad: rapid.SampledFrom([]int{0, 0, 1}).Draw(t, "rawpad"), S: rapid.SampledFrom([]string{"", "x", "abcdefgh"}).Draw(t, "rawtail")}
+}
+
 func genWMessage(t *rapid.T) WField {
 	f := WField{Num: 4, Kind: "sub"}
 	n := rapid.IntRange(0, 7).Draw(t, "nmsgf")
@@ -124,6 +136,9 @@ func genWMessage(t *rapid.T) WField {
 		default:
 			f.Sub = append(f.Sub, genWUnknown(t, 5))
 		}
+	}
+	if rapid.IntRange(0, 9).Draw(t, "rawinmsg") == 0 {
+		f.Sub = append(f.Sub, genRawLen(t, []int{1, 5, 6})) // the data field, or an unknown one
 	}
 	return f
 }
@@ -146,6 +161,9 @@ func genWireBytes(t *rapid.T) WBCase {
 		default:
 			c.Fields = append(c.Fields, genWUnknown(t, 5))
 		}
+	}
+	if rapid.IntRange(0, 9).Draw(t, "rawtop") == 0 {
+		c.Fields = append(c.Fields, genRawLen(t, []int{1, 2, 3, 4, 7}))
 	}
 	return c
 }
